@@ -6,7 +6,7 @@ import re
 import sys
 
 sys.path.insert(0, os.path.dirname(os.path.abspath(__file__)))
-from weave import (WeaveError, Source, Piece, Rewrites, load_contracts, methods_of, split_fn,
+from weave import (WeaveError, Source, Piece, Rewrites, load_contracts, methods_of, split_fn, cut_statements,
                    weave_fn, scan_assumptions, code_mask)
 
 HERE = os.path.dirname(os.path.abspath(__file__))
@@ -189,6 +189,25 @@ def build_u123(repo, canary=None):
     t = u.rw.r3_smallvec(en.text)
     t = u.rw.r6_full_range(t)
     u.emit_fn(en, "eval_numbers", text=t)
+
+    # U3b: the second tracker-selection site, deep.rs eval_relaxed (statement slice inside a generated frame)
+    deep = Source(repo, "src/expression/deep.rs")
+    site = cut_statements(deep, r"^    fn eval_relaxed\(&self, vars: &\[T\]\) -> ExResult<T>", "let mut tracker", "let binary_evaluation = eval_binary(", "DeepEx::eval_relaxed tracker site")
+    t = u.rw.r3_smallvec(site.text)
+    t = u.rw.r6_full_range(t)
+    # R7: expressions over `self` / owned locals of the enclosing function become frame parameters
+    t, k1 = re.subn(r"&self\.bin_ops\(\)\.ops", "frame_bin_ops", t)
+    t, k2 = re.subn(r"&prio_indices\b", "frame_prio_indices", t)
+    u.rw.count("R7", k1 + k2)
+    if k1 != 1 or k2 != 1:
+        raise WeaveError("lost anchor: R7 operands of the eval_binary call in DeepEx::eval_relaxed")
+    frame = u.directives("deep site frame")
+    head = [d for d in frame if d["kind"] == "text"][0]["text"]
+    body = weave_fn("fn frame() {\n" + t + "\n}", [d for d in frame if d["kind"] != "text"], "deep site frame")
+    inner = body[body.index("{") + 1: body.rindex("}")]
+    u.emit_raw(head + "\n{" + inner + "\n    binary_evaluation\n}", {"kind": "repo", "file": site.file, "line": site.line})
+    u.functions.append({"name": "DeepEx::eval_relaxed (statements `let mut tracker ..` through `eval_binary(..)` only)", "file": site.file,
+                        "line": site.line, "end_line": site.end_line, "woven_as": "deep site frame"})
 
     u.emit_text("epilogue")
     return u, u.finish()
